@@ -31,10 +31,33 @@ RLIMIT = re.compile(r'[Rr]esource limit|rlimit|timed out|timeout')
 SAFETY_KINDS = ('overflow', 'divzero', 'pre-std', 'assert-body')
 
 
+_SCRATCH = None
+
+
 def scratch_dir():
+    """A private scratch directory per check process (two checks may run at the same time and share units);
+    removed at exit.  The last generated file of each unit is also left in .work/<unit>.rs for inspection."""
+    global _SCRATCH
     base = os.environ.get('VERIF_SCRATCH') or os.path.join(ROOT, '.work')
     os.makedirs(base, exist_ok=True)
-    return base
+    if _SCRATCH is None:
+        import atexit, tempfile
+        _SCRATCH = tempfile.mkdtemp(prefix=f'p{os.getpid()}_', dir=base)
+        if os.environ.get('VERIF_KEEP_WORK') != '1':
+            atexit.register(lambda d=_SCRATCH: shutil.rmtree(d, ignore_errors=True))
+    return _SCRATCH
+
+
+def _publish(gen):
+    """best effort: copy the generated file to .work/<name>.rs (atomic rename), for inspection after the run"""
+    try:
+        base = os.path.dirname(os.path.dirname(gen))
+        tmp = os.path.join(os.path.dirname(gen), os.path.basename(gen) + '.pub')
+        shutil.copyfile(gen, tmp)
+        os.replace(tmp, os.path.join(base, os.path.basename(gen)))
+        return os.path.join(base, os.path.basename(gen))
+    except Exception:
+        return gen
 
 
 def load_unit(name):
@@ -227,7 +250,7 @@ def run_unit(name, tier='quick', variant=None, keep=True):
     gen = os.path.join(sd, f'{name}{"__" + variant.__name__ if variant else ""}.rs')
     with open(gen, 'w') as f:
         f.write(A.text)
-    R.gen_path = gen
+    R.gen_path = _publish(gen)
     R.trusted = _trusted_scan(A.text)
     # assume/admit are only tolerated in stdmodel / prelude chunks
     for kind, ln, what in R.trusted:
